@@ -183,6 +183,46 @@ func c11SeqCase(c *core.Ctx, in c11Seq) {
 	}
 }
 
+// c11Repeat: a period of operations repeated on one object.
+type c11Repeat struct {
+	State   uint32    `json:"state"`
+	Period  []c11Step `json:"period"`
+	Times   int       `json:"times"`
+	NoReads bool      `json:"no_reads_between_ops,omitempty"`
+}
+
+func c11RepeatCase(c *core.Ctx, in c11Repeat) {
+	cnt := c11Build(in.State)
+	ref := in.State & 0xFFFFFF
+	for i := 0; i < in.Times; i++ {
+		for _, st := range in.Period {
+			op := c11OpIndex(st.Op)
+			if in.NoReads {
+				if op == c11Reads {
+					continue
+				}
+				c11Mutate(&cnt, &ref, op, st.O, st.Q)
+				continue
+			}
+			if bad := c11Apply(&cnt, &ref, op, st.O, st.Q); bad != "" {
+				c.Fail("repeat|"+st.Op+"|"+bad, fmt.Sprintf("state %#06x, period %v, repetition %d: implementation Get=%#x SQN=%#x Overflow=%#x, model %#06x", in.State, in.Period, i+1, cnt.Get(), cnt.SQN(), cnt.Overflow(), ref))
+				return
+			}
+		}
+		if in.NoReads && (i&(i+1)) == 0 {
+			// observed on a copy at repetitions 1, 2, 4, 8, … so that the object itself stays unread
+			cp := cnt
+			if bad := c11Observe(&cp, ref); bad != "" {
+				c.Fail("repeat-noreads|"+in.Period[len(in.Period)-1].Op+"|"+bad, fmt.Sprintf("state %#06x, period %v repeated %d times without reads: implementation SQN=%#x Overflow=%#x Get=%#x, model %#06x", in.State, in.Period, i+1, cp.SQN(), cp.Overflow(), cp.Get(), ref))
+				return
+			}
+		}
+	}
+	if bad := c11Observe(&cnt, ref); bad != "" {
+		c.Fail("repeat-noreads|"+in.Period[len(in.Period)-1].Op+"|"+bad, fmt.Sprintf("state %#06x, period %v repeated %d times: implementation SQN=%#x Overflow=%#x Get=%#x, model %#06x", in.State, in.Period, in.Times, cnt.SQN(), cnt.Overflow(), cnt.Get(), ref))
+	}
+}
+
 func c11Alphabets(thorough bool) (sqns []uint8, ovs []uint16) {
 	if thorough {
 		for v := 0; v < 256; v++ {
@@ -417,6 +457,44 @@ func c11Run(c *core.Ctx) {
 			}
 		}
 	}
+	// long histories on one object: every period of one or two operations of the alphabet repeated 4096 times (thorough
+	// 70 000: beyond 2^16) from four states, observed after every step and, separately, only at the end — state that
+	// builds up over many calls (a hidden call counter, an epoch, a wear-out) has no short witness
+	{
+		times := 4096
+		if c.Thorough() {
+			times = 70000
+		}
+		u := 0
+		var reps int64
+		for a := range alpha {
+			for b := -1; b < len(alpha); b++ {
+				u++
+				if !c.Mine(u) {
+					continue
+				}
+				period := []c11Step{alpha[a]}
+				if b >= 0 {
+					if b == a {
+						continue
+					}
+					period = append(period, alpha[b])
+				}
+				for _, s := range []uint32{0, 0xFFFFFF, 0xA5A5FE, 0x00FF00} {
+					for _, noReads := range []bool{false, true} {
+						in := c11Repeat{State: s, Period: period, Times: times, NoReads: noReads}
+						if c.Begin("repeat", "Count", in) {
+							c11RepeatCase(c, in)
+							reps++
+							transitions += int64(times * len(period))
+						}
+					}
+				}
+				c.Tick()
+			}
+		}
+		c.Add("long_histories", reps)
+	}
 	c.Add("states", states)
 	c.Add("transitions", transitions)
 	c.Add("traces_validated_against_impl", transitions)
@@ -435,6 +513,7 @@ func c11Run(c *core.Ctx) {
 func init() {
 	core.RegisterKind("C11", "step", c11StepCase)
 	core.RegisterKind("C11", "seq", c11SeqCase)
+	core.RegisterKind("C11", "repeat", c11RepeatCase)
 	core.RegisterProp(&core.PropSpec{
 		ID: "C11", Level: "model_checking", Run: c11Run,
 		Shards: func(string) int { return 16 },
